@@ -622,6 +622,24 @@ func (t *trans) call(x *cCall) (string, vtype) {
 			t.fail("deref of non-pointer")
 		}
 		return t.loadAt(s, el), vtype{c.sortOf(el), el}
+	case "code": // code point of a one-character string
+		a, _ := arg(0)
+		return fmt.Sprintf("(str.to_code %s)", a), intT
+	case "chr":
+		a, _ := arg(0)
+		return fmt.Sprintf("(str.from_code %s)", a), vtype{"String", types.Typ[types.String]}
+	case "str_contains":
+		a, _ := arg(0)
+		b, _ := arg(1)
+		return fmt.Sprintf("(str.contains %s %s)", a, b), boolT
+	case "str_indexof":
+		a, _ := arg(0)
+		b, _ := arg(1)
+		return fmt.Sprintf("(str.indexof %s %s 0)", a, b), intT
+	case "str_suffix":
+		a, _ := arg(0)
+		b, _ := arg(1)
+		return fmt.Sprintf("(str.suffixof %s %s)", a, b), boolT
 	case "str_prefix":
 		a, _ := arg(0)
 		b, _ := arg(1)
